@@ -98,6 +98,30 @@ def impl_checks(ctx):
                 inp, dict(Z=z, residual_published=r_pub, residual_coded=r_cod))
         if 20 * 0.27 * prf / trf <= 1 and abs(z - 1) > 6.48 * prf / trf * (1 + 1e-9):
             bad("Z does not tend to 1 as pressure tends to 0 (|Z-1| exceeds the proved modulus 6.48 p_r/T_r)", inp, z)
+    # one process, many gases: the same reservoir temperature with different pseudocritical points, in
+    # both orders (a result must not depend on which gas was evaluated before)
+    for _ in range(8 if ctx.quick else 60):
+        T = float(rng.uniform(100, 380))
+        gases = []
+        while len(gases) < 3:
+            tpc, ppc = float(rng.uniform(-130, 60)), float(rng.uniform(550, 750))
+            if 1.05 <= (T + 459.67) / (tpc + 459.67) <= 3:
+                gases.append((tpc, ppc))
+        p = float(rng.uniform(200, 9000))
+        first = [float(gas.z_factor_DAK(T, p, a, b)) for a, b in gases]
+        second = [float(gas.z_factor_DAK(T, p, a, b)) for a, b in reversed(gases)][::-1]
+        ev += 6
+        for (tpc, ppc), z1, z2 in zip(gases, first, second):
+            trf, prf = (T + 459.67) / (tpc + 459.67), p / ppc
+            if prf > 30:
+                continue
+            rho = 0.27 * prf / (z1 * trf)
+            res = min(abs(dak.residual(trf, prf, rho, True)), abs(dak.residual(trf, prf, rho, False))) * rho
+            inp = dict(T=T, p=p, gases_in_call_order=gases, this_gas=[tpc, ppc])
+            if z1 != z2:
+                bad("Z depends on which other gas was evaluated earlier in the same process", inp, dict(first_order=z1, reverse_order=z2))
+            elif res > 1e-8:
+                bad("returned Z does not satisfy the Dranchuk-Abou-Kassem equation at its own reduced temperature and density", inp, dict(Z=z1, residual=res))
     # continuity in pressure: no jumps along fine pressure sweeps
     for tr in ([1.05, 1.3, 2.0, 3.0] if ctx.quick else list(np.linspace(1.05, 3, 25))):
         prs = np.linspace(0.02, 30, 600 if ctx.quick else 3000)
